@@ -250,6 +250,8 @@ def explore(case, roots=None, max_paths=10**9, deadline=None, timeout_ms=20000, 
                         ok_ = rep["status"] == "ok" and rep["verdicts"].get(label) is False
                     rec_ = dict(label=label, model=model_to_json(model), prefix=eng.trace, tag=tag, replay=rep, exc=info,
                                 reproduced=ok_)
+                    if not ok_:
+                        rec_["model_exact"] = {k: str(v) for k, v in model.items()}
                     if ok_:
                         break
                 return rec_
@@ -282,6 +284,13 @@ def explore(case, roots=None, max_paths=10**9, deadline=None, timeout_ms=20000, 
             reproduced = rec["reproduced"]
             if reproduced and is_known:
                 known_replayed[kmatch.get("id")] = known_replayed.get(kmatch.get("id"), 0) + 1
+            if not reproduced and is_known:
+                # a path inside the witness class of a listed finding whose model does not survive the conversion to
+                # floats: neither a new violation nor a re-derivation
+                res["known_unreplayed"] = res.get("known_unreplayed", 0) + 1
+                L["violated"] += 1
+                path_violated = True
+                continue
             if not reproduced:
                 res["spurious"].append(rec)
                 continue
@@ -329,7 +338,7 @@ def explore(case, roots=None, max_paths=10**9, deadline=None, timeout_ms=20000, 
 def merge(a, b):
     """merge result b into a"""
     for k in ("paths", "feasible", "infeasible", "queries", "solver_s", "unknown", "aborted", "ob_queries", "discharged",
-              "trivially_true", "xval_ok", "forks", "wall_s", "xval_uf_skipped"):
+              "trivially_true", "xval_ok", "forks", "wall_s", "xval_uf_skipped", "known_unreplayed"):
         a[k] = a.get(k, 0) + b.get(k, 0)
     for k in ("abort_reasons", "tags", "exceptions"):
         d = a.setdefault(k, {})
